@@ -472,9 +472,9 @@ func main() {
 	flag.Parse()
 	os.Setenv("PATH", "/opt/veriftools/go1.27.0/bin:"+os.Getenv("PATH"))
 	if *qto == 0 {
-		*qto = 20000
+		*qto = 60000
 		if *tier == "thorough" {
-			*qto = 120000
+			*qto = 300000
 		}
 	}
 	seed := 0
@@ -590,11 +590,17 @@ func main() {
 				fmt.Printf("== %s/%s: %s paths=%d infeasible=%d obligations=%d discharged=%d (syntactic %d) unknown=%d cex=%d queries=%d solver=%.1fs wall=%.1fs instr=%d\n",
 					filepath.Base(f), e.Name, status, sh.Paths, sh.Infeas, sh.Asserts, sh.Discharge, sh.Trivial, sh.Unknown, len(sh.Cexs), sh.SolverQ, sh.SolverT.Seconds(), r.Wall.Seconds(), sh.Instr)
 			}
+			if os.Getenv("VX_DUMP") != "" {
+				os.MkdirAll(filepath.Join(outDir, "q"), 0o755)
+				for i, sc := range sh.Scripts {
+					os.WriteFile(filepath.Join(outDir, "q", fmt.Sprintf("%s-%04d.smt2", e.Name, i)), []byte(sc), 0o644)
+				}
+			}
 			// cross-solver check
-			if *cross && len(sh.Scripts) > 0 {
+			if *cross && *tier == "thorough" && len(sh.Scripts) > 0 {
 				n := len(sh.Scripts)
-				if *tier == "quick" && n > 40 {
-					n = 40
+				if n > 60 {
+					n = 60
 				}
 				agree, dis, unk := crossCheck(sh.Scripts[:n], *tier)
 				ev.CrossAgree += agree
